@@ -118,7 +118,8 @@ from .misc import ProtocolNotSupported, ServiceNotAvailable
 from .misc import TermModesArg, TermSizeArg
 from .misc import async_context_manager, construct_disc_error, encode_env
 from .misc import get_symbol_names, ip_address, lookup_env, map_handler_name
-from .misc import parse_byte_count, parse_time_interval, split_args
+from .misc import parse_byte_count, parse_time_interval, read_file
+from .misc import split_args
 
 from .packet import Boolean, Byte, NameList, String, UInt32, PacketDecodeError
 from .packet import SSHPacket, SSHPacketHandler, SSHPacketLogger
@@ -9108,8 +9109,20 @@ class SSHServerConnectionOptions(SSHConnectionOptions):
         self.trust_client_host = trust_client_host
 
         if authorized_client_keys == () and reload:
-            authorized_client_keys = \
-                cast(List[str], config.get('AuthorizedKeysFile'))
+            authorized_client_keys = None
+
+            # As in OpenSSH, a user's authorized keys file which doesn't
+            # exist or has no keys in it isn't an error. It just doesn't
+            # provide any keys this user can authenticate with.
+            user_keys = SSHAuthorizedKeys()
+
+            for filename in cast(List[str],
+                                 config.get('AuthorizedKeysFile', ())):
+                try:
+                    user_keys.load(read_file(filename, 'r'))
+                    authorized_client_keys = user_keys
+                except (OSError, ValueError):
+                    pass
 
         if isinstance(authorized_client_keys, (str, list)):
             self.authorized_client_keys = \
